@@ -1,5 +1,457 @@
+//! Workload "crc" (C07): corrupted pages never yield data. One case = (file, page):
+//! every single-bit flip of that page (exhaustive), sampled 2-/3-bit flips, bursts and
+//! random overwrites; on each altered image a reader runs a random sequence of operations
+//! with repetitions and every result must be an error or equal the intact file's result.
+
+use crate::crc::{crc32c, FastCrc, PAGE, PAYLOAD};
+use crate::dev::Dev;
+use crate::json::{fnv64, J};
+use crate::obs::*;
+use crate::rng::Rng;
+use crate::scene::*;
 use crate::{Args, Reporter};
-pub fn run(_a: &Args, _rep: &mut Reporter) {
-    eprintln!("workload not built yet");
-    std::process::exit(2);
+use e57::*;
+use std::io::Cursor;
+
+pub const MAX_PAGES: u64 = 12;
+
+/// deterministic small file for file number `n` (independent of sharding)
+pub fn make_file(seed: u64, n: u64, cover: &mut crate::Cover) -> Option<(Vec<u8>, Scene)> {
+    for attempt in 0..50u64 {
+        let mut r = Rng::new(crate::rng::mix(&[seed, 0xC07, n, attempt]));
+        let mut k = Knobs::base();
+        k.max_items = 3;
+        k.big_points = false;
+        k.max_records = 8;
+        let mut scratch = crate::Cover::default();
+        let mut scene = gen_scene(&mut r, &k, &mut scratch);
+        // keep sections small and make sure there is something to read
+        let mut has_pc = false;
+        for it in scene.items.iter_mut() {
+            match it {
+                Item::Pc(pc) => {
+                    has_pc = true;
+                    // no limit overrides: the intact file must be fully readable (baseline)
+                    pc.meta.intensity_limits = None;
+                    pc.meta.color_limits = None;
+                    if pc.points.len() < 40 {
+                        // enough points for the section to span at least a page of its own
+                        let n = 40 + r.usize(120);
+                        pc.points = (0..n).map(|_| gen_point(&mut r, &pc.prototype, false)).collect();
+                    }
+                }
+                Item::Blob(b) => {
+                    if b.len() < 1200 {
+                        *b = gen_blob_data(&mut r, 1200 + (n as usize * 37) % 1500, 3);
+                    }
+                    b.truncate(2700)
+                }
+                Item::Img(im) => {
+                    if let Some(v) = &mut im.visual {
+                        v.data.truncate(700);
+                        if let Some(m) = &mut v.mask {
+                            m.truncate(300);
+                        }
+                    }
+                    if let Some((_, p)) = &mut im.proj {
+                        p.data.truncate(700);
+                        if let Some(m) = &mut p.mask {
+                            m.truncate(300);
+                        }
+                    }
+                }
+                _ => {}
+            }
+        }
+        if !has_pc {
+            continue;
+        }
+        let dev = Dev::empty();
+        let run = run_scene(&scene, dev.clone(), Judge::Conforming);
+        if !run.finalized {
+            continue;
+        }
+        let bytes = dev.bytes();
+        let pages = (bytes.len() / PAGE) as u64;
+        if pages < 2 || pages > MAX_PAGES {
+            continue;
+        }
+        cover.hit_num("file_pages", pages);
+        return Some((bytes, scene));
+    }
+    None
+}
+
+#[derive(Clone, Debug)]
+pub enum ReadOp {
+    Meta,
+    Raw(usize),
+    Simple(usize),
+    Blob(usize),
+}
+
+pub struct Baseline {
+    pub meta: Vec<String>,
+    pub xml: String,
+    pub pcs: Vec<PointCloud>,
+    pub blobs: Vec<Blob>,
+    pub raw: Vec<String>,
+    pub simple: Vec<String>,
+    pub blob: Vec<String>,
+    pub page_region: Vec<String>, // per page: what lives there (coverage label)
+}
+
+fn render_raw(r: std::result::Result<RawRead, String>) -> std::result::Result<String, String> {
+    match r {
+        Err(e) => Err(e),
+        Ok(rr) => match &rr.end {
+            End::Err(e) => Err(format!("after {} items: {}", rr.items.len(), e)),
+            _ => Ok(format!("{}|{}", rr.items.iter().map(|p| raw_str(p)).collect::<Vec<_>>().join(";"), rr.end.render())),
+        },
+    }
+}
+fn render_simple(r: std::result::Result<SimpleRead, String>) -> std::result::Result<String, String> {
+    match r {
+        Err(e) => Err(e),
+        Ok(rr) => match &rr.end {
+            End::Err(e) => Err(format!("after {} items: {}", rr.items.len(), e)),
+            _ => Ok(format!("{}|{}", rr.items.iter().map(point_str).collect::<Vec<_>>().join(";"), rr.end.render())),
+        },
+    }
+}
+fn render_blob(r: std::result::Result<(u64, Vec<u8>), String>) -> std::result::Result<String, String> {
+    r.map(|(n, d)| format!("{}:{:016x}:{}", n, fnv64(&d), d.len()))
+}
+
+/// partial reads deliver data too: items yielded before an error must be a prefix of the baseline's
+fn prefix_ok(partial_items: &str, baseline: &str) -> bool {
+    baseline.starts_with(partial_items)
+}
+
+pub fn all_blobs(imgs: &[Image], extra: &[Blob]) -> Vec<Blob> {
+    let mut v: Vec<Blob> = Vec::new();
+    for im in imgs {
+        for (_, b) in img_blobs(im) {
+            v.push(b);
+        }
+    }
+    v.extend(extra.iter().cloned());
+    v
+}
+
+pub fn baseline(bytes: &[u8], extra_blobs: &[Blob]) -> Option<Baseline> {
+    let mut rd = E57Reader::new(Cursor::new(bytes.to_vec())).ok()?;
+    let meta = meta_lines(&rd, true);
+    let xml = rd.xml().to_string();
+    let pcs = rd.pointclouds();
+    let blobs = all_blobs(&rd.images(), extra_blobs);
+    let mut raw = Vec::new();
+    let mut simple = Vec::new();
+    for pc in &pcs {
+        raw.push(render_raw(read_raw(&mut rd, pc, 1 << 20)).ok()?);
+        simple.push(render_simple(read_simple(&mut rd, pc, Opts::DEFAULT, 1 << 20)).ok()?);
+    }
+    let mut blob = Vec::new();
+    for b in &blobs {
+        blob.push(render_blob(read_blob(&mut rd, b)).ok()?);
+    }
+    // label pages
+    let h = rd.header();
+    let npages = bytes.len() / PAGE;
+    let mut page_region = vec![String::new(); npages];
+    let xml_first = (h.phys_xml_offset / PAGE as u64) as usize;
+    for (p, label) in page_region.iter_mut().enumerate() {
+        let mut l = Vec::new();
+        if p == 0 {
+            l.push("header");
+        }
+        if p >= xml_first {
+            l.push("xml");
+        }
+        if pcs.iter().any(|pc| (pc.file_offset / PAGE as u64) as usize == p) {
+            l.push("cv-section-start");
+        }
+        if blobs.iter().any(|b| (b.offset / PAGE as u64) as usize == p) {
+            l.push("blob-start");
+        }
+        if l.is_empty() {
+            l.push("data");
+        }
+        *label = l.join("+");
+    }
+    Some(Baseline { meta, xml, pcs, blobs, raw, simple, blob, page_region })
+}
+
+pub struct Outcome {
+    pub viol: Option<(String, String)>,
+    pub code: u64, // folded into the verdict digest
+    pub new_ok: bool,
+    pub ops_err: u64,
+    pub ops_equal: u64,
+    pub repeats_after_failure: u64,
+}
+
+/// run the read suite on an altered image
+pub fn judge_variant(img: &[u8], base: &Baseline, r: &mut Rng, must_detect: bool, what: &str) -> Outcome {
+    let mut out = Outcome { viol: None, code: 0, new_ok: false, ops_err: 0, ops_equal: 0, repeats_after_failure: 0 };
+    // whole-file validation
+    match guarded(|| E57Reader::validate_crc(Cursor::new(img.to_vec()))) {
+        Err(p) => {
+            out.viol = Some((format!("panic/validate_crc/{}", panic_sig(&p)), p));
+            return out;
+        }
+        Ok(Ok(_)) => {
+            out.code = out.code.wrapping_mul(31).wrapping_add(1);
+            if must_detect {
+                out.viol = Some((format!("validate_crc/accepted/{}", what), format!("validate_crc returned Ok on an image altered by {}", what)));
+                return out;
+            }
+        }
+        Ok(Err(_)) => {
+            out.code = out.code.wrapping_mul(31).wrapping_add(2);
+        }
+    }
+    let rd = guarded(|| E57Reader::new(Cursor::new(img.to_vec())));
+    let mut rd = match rd {
+        Err(p) => {
+            out.viol = Some((format!("panic/E57Reader::new/{}", panic_sig(&p)), p));
+            return out;
+        }
+        Ok(Err(_)) => {
+            out.code = out.code.wrapping_mul(31).wrapping_add(3);
+            return out;
+        }
+        Ok(Ok(rd)) => rd,
+    };
+    out.new_ok = true;
+    out.code = out.code.wrapping_mul(31).wrapping_add(4);
+    // everything the open reader reports without further reads
+    let meta = meta_lines(&rd, true);
+    if meta != base.meta {
+        let d = meta.iter().zip(base.meta.iter()).find(|(a, b)| a != b).map(|(a, b)| format!("altered: {} :: intact: {}", a, b)).unwrap_or_else(|| "different number of lines".into());
+        let field = d.split(' ').nth(1).unwrap_or("?").to_string();
+        out.viol = Some((format!("open/accepted-with-different-content/{}/{}", what, field), d.chars().take(600).collect()));
+        return out;
+    }
+    if rd.xml() != base.xml {
+        out.viol = Some((format!("open/accepted-with-different-xml/{}", what), format!("xml() has {} bytes, intact file {}", rd.xml().len(), base.xml.len())));
+        return out;
+    }
+    // random operation sequence with repetitions
+    let mut ops: Vec<ReadOp> = Vec::new();
+    for i in 0..base.pcs.len() {
+        ops.push(ReadOp::Raw(i));
+        ops.push(ReadOp::Simple(i));
+    }
+    for i in 0..base.blobs.len() {
+        ops.push(ReadOp::Blob(i));
+    }
+    ops.push(ReadOp::Meta);
+    let n = ops.len();
+    let mut seq: Vec<ReadOp> = ops.clone();
+    r.shuffle(&mut seq);
+    for _ in 0..(1 + n / 2) {
+        seq.push(ops[r.usize(n)].clone());
+    }
+    let mut failed_before: Vec<bool> = vec![false; n + 1];
+    for op in seq {
+        let (label, slot, res): (String, usize, std::result::Result<std::result::Result<String, String>, String>) = match &op {
+            ReadOp::Meta => ("descriptors".into(), n, guarded(|| Ok(meta_lines(&rd, true).join("\n")))),
+            ReadOp::Raw(i) => (format!("raw{}", i), *i, guarded(|| render_raw(read_raw(&mut rd, &base.pcs[*i], 1 << 20)))),
+            ReadOp::Simple(i) => (format!("simple{}", i), *i, guarded(|| render_simple(read_simple(&mut rd, &base.pcs[*i], Opts::DEFAULT, 1 << 20)))),
+            ReadOp::Blob(i) => (format!("blob{}", i), base.pcs.len() + *i, guarded(|| render_blob(read_blob(&mut rd, &base.blobs[*i])))),
+        };
+        let expect: String = match &op {
+            ReadOp::Meta => base.meta.join("\n"),
+            ReadOp::Raw(i) => base.raw[*i].clone(),
+            ReadOp::Simple(i) => base.simple[*i].clone(),
+            ReadOp::Blob(i) => base.blob[*i].clone(),
+        };
+        match res {
+            Err(p) => {
+                out.viol = Some((format!("panic/{}/{}", label.trim_end_matches(char::is_numeric), panic_sig(&p)), p));
+                return out;
+            }
+            Ok(Err(_)) => {
+                out.ops_err += 1;
+                out.code = out.code.wrapping_mul(31).wrapping_add(5);
+                if slot < failed_before.len() {
+                    if failed_before[slot] {
+                        out.repeats_after_failure += 1;
+                    }
+                    failed_before[slot] = true;
+                }
+            }
+            Ok(Ok(s)) => {
+                if s != expect {
+                    out.viol = Some((
+                        format!("read/different-data/{}/{}", what, label.trim_end_matches(char::is_numeric)),
+                        format!("{} returned Ok with other data than on the intact file (after failure of the same op: {}): got {} expected {}", label, slot < failed_before.len() && failed_before[slot], s.chars().take(200).collect::<String>(), expect.chars().take(200).collect::<String>()),
+                    ));
+                    return out;
+                }
+                out.ops_equal += 1;
+                out.code = out.code.wrapping_mul(31).wrapping_add(6);
+                if slot < failed_before.len() && failed_before[slot] {
+                    out.repeats_after_failure += 1;
+                }
+            }
+        }
+    }
+    let _ = prefix_ok;
+    out
+}
+
+pub fn run(a: &Args, rep: &mut Reporter) {
+    let fc = FastCrc::new();
+    let multi = a.get_u64("multi", 1500);
+    let mut digest_files: u64 = 0;
+    let mut digest_verdicts: u64 = 0;
+    let (done, reason) = crate::run_cases(a, rep, |idx, _cs, rep| {
+        let mut cover = std::mem::take(&mut rep.cover);
+        let file_no = idx / MAX_PAGES;
+        let page = (idx % MAX_PAGES) as usize;
+        let made = make_file(a.seed, file_no, &mut cover);
+        let (bytes, scene) = match made {
+            Some(x) => x,
+            None => {
+                rep.stat("file_generation_failed", 1);
+                rep.cover = cover;
+                return;
+            }
+        };
+        let npages = bytes.len() / PAGE;
+        if page >= npages {
+            rep.cover = cover;
+            return;
+        }
+        let _ = scene;
+        if page == 0 {
+            rep.stat("files", 1);
+            digest_files = digest_files.wrapping_add(fnv64(&bytes) & 0xFFFF_FFFF_FFFF);
+            // stored checksum = independent bitwise CRC-32C, big endian, on every page
+            for p in 0..npages {
+                let c = crc32c(&bytes[p * PAGE..p * PAGE + PAYLOAD]);
+                rep.stat("pages_crc_checked", 1);
+                if bytes[p * PAGE + PAYLOAD..(p + 1) * PAGE] != c.to_be_bytes() {
+                    rep.violation("C07", "stored-checksum-not-crc32c-be", idx, &format!("file {} page {}: stored {:02x?} independent CRC-32C {:08x}", file_no, p, &bytes[p * PAGE + PAYLOAD..(p + 1) * PAGE], c));
+                }
+            }
+            match guarded(|| E57Reader::validate_crc(Cursor::new(bytes.clone()))) {
+                Ok(Ok(1024)) => {}
+                other => rep.violation("C07", "validate_crc/intact-rejected", idx, &format!("validate_crc on the intact file: {:?}", other.map(|r| r.map_err(|e| err_str(&e))))),
+            }
+        }
+        let base = match baseline(&bytes, &[]) {
+            Some(b) => b,
+            None => {
+                rep.stat("baseline_failed", 1);
+                rep.cover = cover;
+                return;
+            }
+        };
+        let mut r = Rng::new(crate::rng::mix(&[a.seed, 0xC07F, idx]));
+        let region = base.page_region[page].clone();
+        let mut img = bytes.clone();
+        let mut judge = |img: &[u8], must: bool, what: &str, rep: &mut Reporter, r: &mut Rng, cover: &mut crate::Cover| {
+            let o = judge_variant(img, &base, r, must, what);
+            rep.stat("variants", 1);
+            rep.stat(if o.new_ok { "variants_open_accepted" } else { "variants_open_rejected" }, 1);
+            rep.stat("ops_err", o.ops_err);
+            rep.stat("ops_equal", o.ops_equal);
+            rep.stat("repeated_after_failure", o.repeats_after_failure);
+            digest_verdicts = digest_verdicts.wrapping_add(o.code & 0xFFFF_FFFF_FFFF);
+            cover.hit(&format!("variant:{}:{}", what, if o.new_ok { "open-ok" } else { "open-err" }));
+            if let Some((sig, d)) = o.viol {
+                rep.violation("C07", &sig, idx, &format!("file {} page {} ({}): {}", file_no, page, region, d));
+            }
+        };
+        // exhaustive single bit flips of this page
+        for byte in 0..PAGE {
+            for bit in 0..8 {
+                img[page * PAGE + byte] ^= 1 << bit;
+                let what = if byte >= PAYLOAD { "1bit-checksum" } else if page == 0 && byte < 48 { "1bit-file-header" } else { "1bit-payload" };
+                judge(&img, true, what, rep, &mut r, &mut cover);
+                img[page * PAGE + byte] ^= 1 << bit;
+            }
+        }
+        rep.stat("pages_flipped_exhaustively", 1);
+        cover.hit(&format!("region:{}", region));
+        // sampled multi-bit alterations
+        for _ in 0..multi {
+            let kind = r.usize(5);
+            let mut v = bytes.clone();
+            let (what, must) = match kind {
+                0 => {
+                    // 2 bits, same page
+                    let a1 = r.usize(PAGE * 8);
+                    let mut a2 = r.usize(PAGE * 8);
+                    if a2 == a1 {
+                        a2 = (a2 + 1) % (PAGE * 8);
+                    }
+                    v[page * PAGE + a1 / 8] ^= 1 << (a1 % 8);
+                    v[page * PAGE + a2 / 8] ^= 1 << (a2 % 8);
+                    ("2bit-same-page", true)
+                }
+                1 => {
+                    let mut bits = [r.usize(PAGE * 8), r.usize(PAGE * 8), r.usize(PAGE * 8)];
+                    bits.sort();
+                    if bits[0] == bits[1] || bits[1] == bits[2] {
+                        bits = [5, 77, 4099];
+                    }
+                    for b in bits {
+                        v[page * PAGE + b / 8] ^= 1 << (b % 8);
+                    }
+                    ("3bit-same-page", true)
+                }
+                2 => {
+                    // bits in two pages
+                    let other = r.usize(npages);
+                    let a1 = r.usize(PAGE * 8);
+                    let a2 = r.usize(PAGE * 8);
+                    v[page * PAGE + a1 / 8] ^= 1 << (a1 % 8);
+                    if other != page || a1 != a2 {
+                        v[other * PAGE + a2 / 8] ^= 1 << (a2 % 8);
+                    }
+                    ("2bit-two-pages", true)
+                }
+                3 => {
+                    // one burst of up to 32 bits at any bit phase: first and last bit of the burst flipped, random inside
+                    let len = 2 + r.usize(31);
+                    let start = r.usize(PAGE * 8 - len);
+                    let mut pattern: u64 = r.u64() & ((1u64 << len) - 1);
+                    pattern |= 1 | (1u64 << (len - 1));
+                    for i in 0..len {
+                        if pattern >> i & 1 == 1 {
+                            let b = start + i;
+                            v[page * PAGE + b / 8] ^= 1 << (b % 8);
+                        }
+                    }
+                    ("burst<=32", true)
+                }
+                _ => {
+                    // random overwrite: only "Err or equal" is asserted
+                    let len = 1 + r.usize(64);
+                    let start = r.usize(PAGE - len);
+                    for i in 0..len {
+                        v[page * PAGE + start + i] = r.u64() as u8;
+                    }
+                    let same = v == bytes;
+                    if same {
+                        v[page * PAGE + start] ^= 0x55;
+                    }
+                    ("random-overwrite", false)
+                }
+            };
+            judge(&v, must, what, rep, &mut r, &mut cover);
+        }
+        if rep.samples < rep.max_samples {
+            rep.sample(J::obj().set("case", J::i(idx as i128)).set("file", J::i(file_no as i128)).set("file_pages", J::u(npages)).set("page", J::u(page)).set("page_holds", J::s(&region)).set("variants", J::u(8192 + multi as usize)));
+        }
+        let _ = &fc;
+        rep.cover = cover;
+    });
+    rep.stat("digest_files_sum48", digest_files & 0xFFFF_FFFF_FFFF);
+    rep.stat("digest_verdicts_sum48", digest_verdicts & 0xFFFF_FFFF_FFFF);
+    rep.finish(done, reason);
 }
